@@ -1,3 +1,196 @@
 package engine
 
-func runC16Struct(c *Ctx, wl *walkLayers) {}
+import (
+	"fmt"
+	"go/token"
+	"regexp"
+	"strings"
+)
+
+var (
+	reSplitOf = regexp.MustCompile(`^valid\.ValidNamesSplit\((.*), nil\)\[[^\[\]]*\]$`)
+)
+
+// splitCall parses "f(a, b(c, d), e)" into name and top-level arguments.
+func splitCall(key string) (name string, args []string, ok bool) {
+	i := strings.Index(key, "(")
+	// the function name itself may contain parentheses: "(valid.RM).Get(...)"
+	if strings.HasPrefix(key, "(") {
+		j := strings.Index(key, ")")
+		if j < 0 {
+			return "", nil, false
+		}
+		k := strings.Index(key[j:], "(")
+		if k < 0 {
+			return "", nil, false
+		}
+		i = j + k
+	}
+	if i < 0 || !strings.HasSuffix(key, ")") {
+		return "", nil, false
+	}
+	name = key[:i]
+	body := key[i+1 : len(key)-1]
+	depth, start := 0, 0
+	inStr := false
+	for p := 0; p < len(body); p++ {
+		ch := body[p]
+		switch {
+		case ch == '"' && (p == 0 || body[p-1] != '\\'):
+			inStr = !inStr
+		case inStr:
+		case ch == '(' || ch == '[':
+			depth++
+		case ch == ')' || ch == ']':
+			depth--
+			if depth < 0 {
+				return "", nil, false
+			}
+		case ch == ',' && depth == 0:
+			args = append(args, strings.TrimSpace(body[start:p]))
+			start = p + 1
+		}
+	}
+	if depth != 0 {
+		return "", nil, false
+	}
+	args = append(args, strings.TrimSpace(body[start:]))
+	return name, args, true
+}
+
+// getOf recognises (valid.RM).Get(rm, name).
+func getOf(key string) (rm, name string, ok bool) {
+	n, a, ok := splitCall(key)
+	if !ok || n != "(valid.RM).Get" || len(a) != 2 {
+		return "", "", false
+	}
+	return a[0], a[1], true
+}
+
+func runC16Struct(c *Ctx, wl *walkLayers) {
+	p := c.P
+	c.Rule("C16-REPLACE", "struct walker: the rule string of a field is exactly the programmatic rule (RM.Get for that field's name) when it is non-empty, otherwise the cached tag rule of the same field; never a concatenation", 1)
+	c.Rule("C16-SCOPE", "struct walker: the rule set consulted is the one registered for the object's own type; the unscoped set only for the outermost object (empty path) and only when the type-scoped set is empty; SetRule keys by the pointer-stripped type of its argument or by the sentinel when none is given", 2)
+	var rep, scope []string
+	n := 0
+	var pos token.Pos
+	for _, rc := range ruleCalls(wl) {
+		if fnName(rc.we.Run.Fn) != "(*valid.VStruct).validate" {
+			continue
+		}
+		pos = rc.we.Run.Fn.Pos()
+		m := reSplitOf.FindStringSubmatch(rc.item)
+		if m == nil {
+			continue // C18-SKEL reports
+		}
+		n++
+		c.Sites++
+		X := m[1]
+		pc := rc.we.E.PC
+		fi := strings.TrimSuffix(rc.fld, ".name") // field info expression
+		if !strings.HasSuffix(rc.fld, ".name") {
+			rep = append(rep, "field name passed to the rule function is not the cached field's name: "+shorten(rc.fld, 80))
+			continue
+		}
+		var rmExpr string
+		if grm, gname, isGet := getOf(X); isGet {
+			rmExpr = grm
+			if gname != rc.fld {
+				rep = append(rep, "programmatic rule looked up under a different name than the field being validated")
+			}
+			if v, ok := pc[`eq("",`+X+`)`]; !ok || v != 0 {
+				rep = append(rep, "programmatic rule used without having been found non-empty")
+			}
+		} else if X == fi+".validNames" {
+			// tag rule: the programmatic rule for this field must have been consulted and empty
+			found := false
+			for k, v := range pc {
+				if strings.HasPrefix(k, `eq("",(valid.RM).Get(`) && strings.HasSuffix(k, ", "+rc.fld+"))") {
+					found = true
+					if v != 1 {
+						rep = append(rep, "tag rule used although the programmatic rule for the field is non-empty")
+					}
+					if grm, _, isGet := getOf(k[len(`eq("",`) : len(k)-1]); isGet {
+						rmExpr = grm
+					}
+				}
+			}
+			if !found {
+				rep = append(rep, "tag rule used without consulting the programmatic rule set for the field")
+			}
+		} else {
+			rep = append(rep, "rule string is neither the programmatic rule nor the cached tag rule of the field (concatenated or from elsewhere): "+shorten(X, 100))
+			continue
+		}
+		// scope
+		outer, hasOuter := pc[`eq("",structName)`]
+		switch {
+		case rmExpr == "nil" || rmExpr == "":
+		case strings.HasPrefix(rmExpr, "v.ruleMap[g:valid."):
+			typeEmpty := false
+			for k, v := range pc {
+				if strings.HasPrefix(k, "eq(0,len(v.ruleMap[") && strings.HasSuffix(k, ".Type()]))") && v == 1 {
+					typeEmpty = true
+				}
+			}
+			if !hasOuter || outer != 1 {
+				scope = append(scope, "the unscoped rule set is consulted for a nested object")
+			}
+			if !typeEmpty {
+				scope = append(scope, "the unscoped rule set is consulted although the set registered for the object's type was not found empty")
+			}
+		case strings.HasPrefix(rmExpr, "v.ruleMap[") && strings.HasSuffix(rmExpr, ".Type()]"):
+			ty := strings.TrimSuffix(strings.TrimPrefix(rmExpr, "v.ruleMap["), "]")
+			if !strings.HasPrefix(rc.v, strings.TrimSuffix(ty, ".Type()")+".Field(") {
+				scope = append(scope, "rule set is looked up by a type other than the type of the object whose field is validated: "+shorten(ty, 80))
+			}
+		default:
+			scope = append(scope, "rule set comes from an unrecognised place: "+shorten(rmExpr, 80))
+		}
+	}
+	if n == 0 {
+		c.Unk("C16-REPLACE", "(*valid.VStruct).validate", "rule-string", token.NoPos, "struct walker not observed")
+	} else {
+		c.Check(len(rep) == 0, "C16-REPLACE", "(*valid.VStruct).validate", "rule-string", pos, fmt.Sprintf("%d call paths", n), uniqJoin(rep, 3))
+		c.Check(len(scope) == 0, "C16-SCOPE", "(*valid.VStruct).validate", "rule-set", pos, fmt.Sprintf("%d call paths", n), uniqJoin(scope, 3))
+	}
+	// SetRule keys
+	if fn := p.Method("valid", "VStruct", "SetRule"); fn != nil {
+		c.Funcs[fnName(fn)] = true
+		r := exploreWalk(p, fn, nil, nil, 2000)
+		var bad []string
+		upd := 0
+		for _, t := range r.Traces {
+			if t.Cut != "" {
+				c.Unk("C16-SCOPE", fnName(fn), "key", fn.Pos(), t.Cut)
+				continue
+			}
+			for _, e := range t.Events {
+				if e.Kind != "mapupdate" || !strings.Contains(keyOf(e.Args[0]), "ruleMap") {
+					continue
+				}
+				upd++
+				k := keyOf(e.Args[1])
+				none, okN := e.PC["eq(0,len(obj))"]
+				switch {
+				case okN && none == 1:
+					if !strings.HasPrefix(k, "g:valid.") {
+						bad = append(bad, "with no object given the rule set is not stored under the unscoped sentinel but under "+shorten(k, 60))
+					}
+				default:
+					if !strings.Contains(k, "RemoveTypePtr") && !strings.Contains(k, "reflect.TypeOf(obj[0]") {
+						bad = append(bad, "with an object given the rule set is not stored under its pointer-stripped type but under "+shorten(k, 60))
+					}
+					if strings.HasPrefix(k, "reflect.TypeOf(") {
+						if v, ok := e.PC["kind("+k+")∈{ptr}#0"]; !ok || v != 0 {
+							bad = append(bad, "the key type is not pointer-stripped (a rule set given for *T would never match values of type T)")
+						}
+					}
+				}
+			}
+		}
+		c.Check(len(bad) == 0 && upd >= 2, "C16-SCOPE", fnName(fn), "key", fn.Pos(), fmt.Sprintf("%d registration paths", upd), uniqJoin(append(bad, fmt.Sprintf("%d registration paths", upd)), 3))
+	} else {
+		c.Unk("C16-SCOPE", "(*valid.VStruct).SetRule", "key", token.NoPos, "SetRule not found")
+	}
+}
